@@ -75,37 +75,16 @@ def run(ctx, anchors=None):
         ctx.inst(sorted(set(cmd_ops)) == sorted(set(inl_ops)), "R14.1", "inline=" + inl, de.loc(an),
                  "tf %s and %s(...) both perform %s" % (name, inl, cmd_ops or "nothing"),
                  "`tf %s` performs %s but the inline form %s(...) performs %s" % (name, cmd_ops, inl, inl_ops))
-    # ---- R14.2
+    # ---- R14.2 (classes read off the decided conditions of each path: if-chain, early returns or hoisted width alike)
     dp = fb.fn("Value::do_prefix_compact_size")
-    _cm.require_names(dp, ["data_len", "prefix"], "R14.2")
-
-    def dlw_width(arm):
-        for x in walk(arm):
-            if x["k"] == "for" and x.get("cond") is not None and x["cond"].get("k") == "bin" and x["cond"]["op"] == "<":
-                return astq.const_value(x["cond"]["rhs"])
-        return None
-    lad, ifs = ladders.writer_ladder(dp, dlw_width)
-    # the last arm of do_prefix_compact_size is the fall-through after the last if
-    tail_marker = None
-    tail_width = None
-    body = dp.body["ch"] if dp.body and dp.body.get("k") == "block" else []
-    after = False
-    for st in body:
-        if ifs and st is ifs[-1]:
-            after = True
-            continue
-        if after:
-            tail_marker = tail_marker or ladders.marker_of(st)
-            tail_width = tail_width or dlw_width(st)
-    if tail_marker is not None:
-        lad = lad + [(None, tail_marker, tail_width)]
+    lad, inserted = ladders.prefix_classes(prog, dp)
     ctx.site(len(lad))
-    ctx.inst(lad == ladders.EXPECT_WRITER, "R14.2", "prefix-ladder", dp.loc(), "do_prefix_compact_size ladder %s" % lad,
-             "do_prefix_compact_size uses the ladder %s; the compact-size encoding is %s" % (lad, ladders.EXPECT_WRITER))
+    ctx.inst(lad == ladders.EXPECT_WRITER and inserted, "R14.2", "prefix-ladder", dp.loc(), "do_prefix_compact_size ladder %s, prefix inserted before the data" % lad,
+             "do_prefix_compact_size uses the ladder %s%s; the compact-size encoding is %s" % (lad, "" if inserted else " and does not insert the prefix at the beginning of the data on every path", ladders.EXPECT_WRITER))
     ws = [f for f in fb.fns("WriteCompactSize") if f.file == "serialize.h" and f.body is not None and len(f.nodes()) > 10]
     if not ws:
         raise AnalysisBroken("WriteCompactSize instantiation not found")
-    wl, _ = ladders.writer_ladder(ws[0], ladders.ser_width)
+    wl = ladders.writer_classes(prog, ws[0])
     ctx.inst(wl == ladders.EXPECT_WRITER, "R14.2", "serializer-ladder", ws[0].loc(), "WriteCompactSize ladder %s" % wl,
              "WriteCompactSize uses the ladder %s; expected %s" % (wl, ladders.EXPECT_WRITER))
     # ---- R14.3
